@@ -171,7 +171,7 @@ pub fn property() -> Property {
         subchecks: vec![
             SubCheck {
                 name: "positions",
-                driver: Driver::Generated { gen: gen_pos_case, genome_len: 192, quick: 800_000, thorough: 15_000_000 },
+                driver: Driver::Generated { gen: gen_pos_case, genome_len: 192, quick: 2_400_000, thorough: 19_200_000 },
                 check: check_case,
                 configs: Configs::ReleaseOnly,
                 required: &["ep_mark", "mark_on_a_file", "mark_on_h_file", "empty_rank", "full_rank", "multi_digit_counter", "black_to_move", "castling_right"],
@@ -180,7 +180,7 @@ pub fn property() -> Property {
             },
             SubCheck {
                 name: "raw_boards",
-                driver: Driver::Generated { gen: gen_raw_case, genome_len: 256, quick: 800_000, thorough: 15_000_000 },
+                driver: Driver::Generated { gen: gen_raw_case, genome_len: 256, quick: 2_400_000, thorough: 19_200_000 },
                 check: raw_check,
                 configs: Configs::ReleaseOnly,
                 required: &["invalid_raw_board", "ep_mark"],
@@ -189,7 +189,7 @@ pub fn property() -> Property {
             },
             SubCheck {
                 name: "texts",
-                driver: Driver::Generated { gen: gen_text_case, genome_len: 320, quick: 1_000_000, thorough: 20_000_000 },
+                driver: Driver::Generated { gen: gen_text_case, genome_len: 320, quick: 3_000_000, thorough: 24_000_000 },
                 check: text_check,
                 configs: Configs::Both,
                 required: &["raw_accepted", "raw_rejected", "noncanonical_accepted", "canonical_text", "board_accepted"],
